@@ -221,7 +221,9 @@ func (h Engine) applyAuthMiddleware(echoServer core.EchoRouter, path string, con
 	address := h.server.getAddressForPath(path)
 
 	skipper := func(c echo.Context) bool {
-		return !matchesPath(c.Request().RequestURI, path)
+		// match on the path the router dispatches on, not on the raw request target
+		// (which can be in absolute-form: "GET http://host/internal/..." has RequestURI "http://host/internal/...")
+		return !matchesPath(echo.GetPath(c.Request()), path)
 	}
 
 	// Auth
